@@ -1,13 +1,13 @@
 /-
-  VotelibModel.QuotaDist — `QuotaDistributor` and `LargestRemainder`
-  (votelib/evaluate/proportional.py L162-370), modelled as the code is NOW (after the repairs 9571110 —
-  a capped party is held at its cap, no implicit `n_seats` cap, no overshoot recursion, `LargestRemainder`
-  passes `max_seats` on — and 24bad1e).  The pre-repair model is kept in `QuotaDistPreFix.lean`.
+  VotelibModel.QuotaDistPreFix — the model of `QuotaDistributor` / `LargestRemainder` as the code was BEFORE the
+  repairs 9571110 (caps) and 24bad1e (constant quota name): kept only so that the defects those commits removed
+  stay stated as theorems (`VL.C02.prefix_*_witness`).  Not run by the driver; line numbers refer to 9571110^.
 
   Conventions
   * a vote dict is `Votes` (insertion order), `prev_gains` / `max_seats` are `IMap`s (candidate -> int),
   * `selected` / the returned dict is `Sel = List (Key × Int)`: keys are candidates or `Tie` objects
-    (a `Tie` is a frozenset; it is represented by the *sorted* list of its members), values are Python ints,
+    (a `Tie` is a frozenset; it is represented by the *sorted* list of its members), values are Python
+    ints (they do go negative in the overshoot branch, so `Int`, not `Nat`),
   * exceptions: `VotingSystemError` (policy 'error'), `ZeroDivisionError` (`Fraction(v, 0)`),
     `IndexError` (`get_n_best({}, 1)[0]`), as `Err.other "<name>"`.
   * one abstraction: a `Tie` whose members are themselves `Tie` objects (nested frozensets) is not
@@ -16,7 +16,7 @@
 -/
 import VotelibModel.Core
 import VotelibModel.Py
-namespace VL.QD
+namespace VL.QDPre
 open VL
 
 abbrev IMap := List (Cand × Int)
@@ -30,10 +30,15 @@ structure Cfg where
   quota : Rat → Nat → Rat
   acceptEqual : Bool
   onOver : OnOver
+  /-- does the quota callable have a `__name__`?  (registered functions do, `quota.constant(...)` instances do not;
+      the message of L264 reads `self.quota_function.__name__`) -/
+  named : Bool := true
 
 def zeroDiv : Err := .other "ZeroDivisionError"
 def indexErr : Err := .other "IndexError"
 def nestedTie : Err := .other "Model:NestedTie"
+def fuelErr : Err := .other "Model:Fuel"
+def attrErr : Err := .other "AttributeError"
 
 /-! ### dict helpers -/
 
@@ -71,7 +76,7 @@ def sumK (s : Sel) : Int := s.foldl (fun acc p => acc + p.2) 0
 /-- `util.add_dict_to_dict(d1, d2)` (util.py L19-23) -/
 def addDict (d1 d2 : Sel) : Sel := d2.foldl (fun acc p => setK acc p.1 (getK acc p.1 0 + p.2)) d1
 
-/-- `if d[k] == 1: del d[k] else: d[k] -= 1`  (proportional.py L280-283, L286-289, L293-296) -/
+/-- `if d[k] == 1: del d[k] else: d[k] -= 1`  (proportional.py L296-299, L302-305, L309-312) -/
 def decK (s : Sel) (k : Key) : Sel :=
   if getK s k 0 = 1 then delK s k else setK s k (getK s k 0 - 1)
 
@@ -90,37 +95,46 @@ def slotKey : Slot → Key
   | .cand c => .cand c
   | .tie cs => mkTie cs
 
-/-! ### whole quotas: the loop L225-237 -/
+/-! ### whole quotas: the loop L227-242 -/
 
-/-- `n_votes > quota_val or self.accept_equal and n_votes == quota_val` (L227-230) -/
+structure WState where
+  selected : Sel
+  nOvershot : Int
+  overshot : List Cand
+deriving Repr
+
+/-- `n_votes > quota_val or self.accept_equal and n_votes == quota_val` (L229-232) -/
 def fulfills (q : Rat) (ae : Bool) (v : Rat) : Bool := decide (q < v) || (ae && decide (v = q))
 
-/-- `min(w, max_seats.get(candidate, INF))` (L232-235) -/
-def capMin (maxS : IMap) (c : Cand) (w : Int) : Int :=
-  match getCap maxS c with
-  | some m => if m < w then m else w
-  | none => w
-
-/-- body of the loop L225-237 for one `(candidate, n_votes)` -/
-def wholeStep (q : Rat) (ae : Bool) (prev maxS : IMap) (sel : Sel) (p : Cand × Rat) : Except Err Sel :=
+/-- body of the loop L227-242 for one `(candidate, n_votes)`; `n` is `n_seats` -/
+def wholeStep (q : Rat) (ae : Bool) (n : Int) (prev maxS : IMap) (st : WState) (p : Cand × Rat) :
+    Except Err WState :=
   let c := p.1
   let v := p.2
   let nPrev := getI prev c 0
   if fulfills q ae v then
     if q = 0 then .error zeroDiv
     else
-      let nAdd := capMin maxS c (Py.pyInt (v / q)) - nPrev
-      if nAdd > 0 then .ok (setK sel (.cand c) nAdd) else .ok sel
-  else .ok sel
+      let nAdd := Py.pyInt (v / q) - nPrev
+      if nAdd > 0 then
+        let cap := getI maxS c n                       -- L236: default cap is n_seats
+        if nAdd + nPrev > cap then
+          let overshoot := nAdd + nPrev                -- L238 (whole entitlement, not the excess)
+          .ok { selected := setK st.selected (.cand c) (nAdd - overshoot),
+                nOvershot := st.nOvershot + overshoot,
+                overshot := st.overshot ++ [c] }
+        else .ok { st with selected := setK st.selected (.cand c) nAdd }
+      else .ok st
+  else .ok st
 
-def wholeLoop (q : Rat) (ae : Bool) (prev maxS : IMap) : Sel → Votes → Except Err Sel
-  | sel, [] => .ok sel
-  | sel, p :: ps =>
-    match wholeStep q ae prev maxS sel p with
-    | .ok sel' => wholeLoop q ae prev maxS sel' ps
+def wholeLoop (q : Rat) (ae : Bool) (n : Int) (prev maxS : IMap) : WState → Votes → Except Err WState
+  | st, [] => .ok st
+  | st, p :: ps =>
+    match wholeStep q ae n prev maxS st p with
+    | .ok st' => wholeLoop q ae n prev maxS st' ps
     | .error e => .error e
 
-/-! ### `_subtract_overaward` (L259-298) -/
+/-! ### `_subtract_overaward` (L275-314) -/
 
 /-- `votes.get(key, 0)` for a key of `selected` (a `Tie` key is never a key of `votes`) -/
 def votesOfKey (votes : Votes) : Key → Rat
@@ -131,7 +145,7 @@ def prevOfKey (prev : IMap) : Key → Int
   | .cand c => getI prev c 0
   | .tie _ => 0
 
-/-- the dict `remainders` of L270-276, keyed by the *position* of the entry in `selected` -/
+/-- the dict `remainders` of L286-292, keyed by the *position* of the entry in `selected` -/
 def subRemainders (votes : Votes) (q : Rat) (prev : IMap) (sel : Sel) : Votes :=
   (List.range sel.length).zip sel |>.map
     (fun ip => (ip.1, -(votesOfKey votes ip.2.1 - q * (((ip.2.2 + prevOfKey prev ip.2.1 : Int)) : Rat))))
@@ -145,7 +159,7 @@ def candOfKey : Key → Option Cand
   | .cand c => some c
   | .tie _ => none
 
-/-- one pass of the `while` body L270-297 -/
+/-- one pass of the `while` body L286-313 -/
 def subtractStep (votes : Votes) (q : Rat) (prev : IMap) (sel : Sel) : Except Err Sel :=
   match getNBest (subRemainders votes q prev sel) 1 with
   | [] => .error indexErr                                   -- `get_n_best({}, 1)[0]`
@@ -156,10 +170,10 @@ def subtractStep (votes : Votes) (q : Rat) (prev : IMap) (sel : Sel) : Except Er
     | none => .error nestedTie
     | some cs =>
       let tk := mkTie cs
-      if hasK sel tk then .ok (decK sel tk)                  -- L279-283
+      if hasK sel tk then .ok (decK sel tk)                  -- L295-299
       else
-        let sel' := cs.foldl (fun acc c => decK acc (.cand c)) sel     -- L285-289
-        .ok (setK sel' tk (getK sel' tk 0 + (cs.length : Int) - 1))    -- L290-292
+        let sel' := cs.foldl (fun acc c => decK acc (.cand c)) sel     -- L301-305
+        .ok (setK sel' tk (getK sel' tk 0 + (cs.length : Int) - 1))    -- L306-308
 
 def subtractLoop (votes : Votes) (q : Rat) (prev : IMap) : Nat → Sel → Except Err Sel
   | 0, sel => .ok sel
@@ -173,29 +187,48 @@ def subtractOveraward (cfg : Cfg) (votes : Votes) (sel : Sel) (n : Nat) (prev : 
   let q := cfg.quota (sumVals votes) n
   subtractLoop votes q prev overaward.toNat sel
 
-/-! ### `QuotaDistributor.evaluate` (L205-257) -/
+/-! ### `QuotaDistributor.evaluate` (L205-273) -/
 
-/-- over-award policies L238-257 -/
+/-- over-award policies L258-273 -/
 def applyPolicy (cfg : Cfg) (votes : Votes) (n : Nat) (prev : IMap) (selected : Sel) : Except Err Sel :=
   let totalAwarded := sumK selected + sumI prev
   if totalAwarded > (n : Int) then
     match cfg.onOver with
     | .ignore => .ok selected
-    | .error => .error .votingSystemError
+    | .error => if cfg.named then .error .votingSystemError else .error attrErr   -- L263-266
     | .subtract => subtractOveraward cfg votes selected n prev
   else .ok selected
 
-def quotaDistribute (cfg : Cfg) (votes : Votes) (n : Nat) (prev maxS : IMap) : Except Err Sel :=
+/-- body of `evaluate` (L221-273); `recur` stands for the recursive call `self.evaluate` of L252. -/
+def qdBody (cfg : Cfg) (recur : Votes → Nat → IMap → IMap → Except Err Sel)
+    (votes : Votes) (n : Nat) (prev maxS : IMap) : Except Err Sel :=
   let q := cfg.quota (sumVals votes) n
-  match wholeLoop q cfg.acceptEqual prev maxS [] votes with
+  match wholeLoop q cfg.acceptEqual (n : Int) prev maxS ⟨[], 0, []⟩ votes with
   | .error e => .error e
-  | .ok selected => applyPolicy cfg votes n prev selected
+  | .ok st =>
+    if st.nOvershot ≠ 0 then
+      let remaining := votes.filter (fun p => !st.overshot.contains p.1)
+      let totalGained : IMap :=
+        votes.map (fun p => (p.1, getK st.selected (.cand p.1) 0 + getI prev p.1 0))
+      match recur remaining st.nOvershot.toNat totalGained maxS with
+      | .error e => .error e
+      | .ok r => applyPolicy cfg votes n prev (addDict st.selected r)
+    else applyPolicy cfg votes n prev st.selected
 
-/-! ### `LargestRemainder.evaluate` (L336-374) -/
+/-- `evaluate`; the recursion of L243-257 takes fuel (the number of parties suffices: every recursive
+    call drops at least one party, see `VL.C02.qd_fuel_suffices`). -/
+def qdEval (cfg : Cfg) : Nat → Votes → Nat → IMap → IMap → Except Err Sel
+  | 0 => qdBody cfg (fun _ _ _ _ => .error fuelErr)
+  | fuel + 1 => qdBody cfg (qdEval cfg fuel)
+
+def quotaDistribute (cfg : Cfg) (votes : Votes) (n : Nat) (prev maxS : IMap) : Except Err Sel :=
+  qdEval cfg votes.length votes n prev maxS
+
+/-! ### `LargestRemainder.evaluate` (L352-390) -/
 
 def prevAsSel (prev : IMap) : Sel := prev.map (fun p => (Key.cand p.1, p.2))
 
-/-- the dict `remainders` of L361-365 -/
+/-- the dict `remainders` of L377-381 -/
 def lrRemainders (votes : Votes) (q : Rat) (gained : Sel) (maxS : IMap) : Votes :=
   votes.filterMap (fun p =>
     let g := getK gained (.cand p.1) 0
@@ -204,11 +237,11 @@ def lrRemainders (votes : Votes) (q : Rat) (gained : Sel) (maxS : IMap) : Votes 
       | none => true
     if ok then some (p.1, p.2 / q - (g : Rat)) else none)
 
-/-- `quota_elected[candidate] += 1` or `= 1` (L369-373) -/
+/-- `quota_elected[candidate] += 1` or `= 1` (L385-389) -/
 def incK (s : Sel) (k : Key) : Sel := if hasK s k then setK s k (getK s k 0 + 1) else setK s k 1
 
 def largestRemainder (cfg : Cfg) (votes : Votes) (n : Nat) (prev maxS : IMap) : Except Err Sel :=
-  match quotaDistribute cfg votes n prev maxS with       -- L353-355
+  match quotaDistribute cfg votes n prev [] with         -- L369-371: max_seats is NOT passed on
   | .error e => .error e
   | .ok quotaElected =>
     let q := cfg.quota (sumVals votes) n
@@ -220,4 +253,4 @@ def largestRemainder (cfg : Cfg) (votes : Votes) (n : Nat) (prev maxS : IMap) : 
       let best := getNBest rems nForRem.toNat             -- max(n_for_remainder, 0)
       .ok (best.foldl (fun acc s => incK acc (slotKey s)) quotaElected)
 
-end VL.QD
+end VL.QDPre
